@@ -147,14 +147,25 @@ def make_rough_component(rng, nx, na, ny, levels, kpl):
     ys = [Variable(f'y{j}') for j in range(ny)]
     fns = [rough_fn({'c0': rng.randint(-2, 2) / 2, 't': [(rng.randint(-3, 3) / 2, rng.random(), rng.randint(-2, 2) / 4) for _ in range(nx)],
                      'a': [rng.randint(1, 3) / 4 for _ in range(na)]}) for _ in range(ny)]
-    extra = rng.random() < 0.5     # the model also returns an output the component does not declare
+    # the model also returns quantities the component does not declare: they must not influence the declared outputs' surrogate
+    extra = rng.choice([None, 'finite', 'nan', 'long-nan', 'text'])
+    nan_salt = rng.random()
 
     def model(inputs, model_fidelity=None):
         x = tuple(float(inputs[f'x{k}']) for k in range(nx))
         alpha = tuple(int(v) for v in np.atleast_1d(model_fidelity)) if model_fidelity is not None else ()
         ret = {f'y{j}': fns[j](x, alpha) for j in range(ny)}
-        if extra:
+        if extra == 'finite':
             ret['junk'] = 12345.0
+        elif extra == 'nan':
+            ret['junk'] = float('nan')
+        elif extra == 'long-nan':      # longer than what the imputer handles, NaN at about a third of the points
+            arr = np.arange(12, dtype=float) + (x[0] if x else 0.0)
+            if (abs(math.sin(1000.0 * (sum(x) + nan_salt + sum(alpha)))) < 0.33):
+                arr[5] = float('nan')
+            ret['junk'] = arr
+        elif extra == 'text':
+            ret['junk'] = 'run-%d' % len(x)
         return ret
     kw = {'data_fidelity': tuple(levels)}
     if na:
@@ -198,6 +209,10 @@ def component_cases(ctx: Ctx):
             for alpha, beta in iset:
                 w = tree[alpha, beta]
                 st = comp.misc_states[alpha, beta]
+                if any(v not in st.x_grids for v in names):
+                    ctx.violate('C05:interpolator-state-without-grid', f'the interpolator state of index {(alpha, beta)} has no grid for {names}: no training '
+                                f'point was accepted (the model also returns an undeclared quantity)', case0)
+                    plain = None; break
                 gnodes = [np.asarray(st.x_grids[v]).tolist() for v in names]
                 # consistency of the state's grid with the sparse grid prefix used by beta
                 sizes = td.beta_to_knots(beta[:nx])
@@ -216,6 +231,8 @@ def component_cases(ctx: Ctx):
                     fresh = [fns[j](tuple(p), tuple(alpha)) for p in pts]
                     if np.asarray(yt[f'y{j}']).tolist() != fresh:
                         ctx.violate('C05:stored-data', f'stored data of index {(alpha, beta)} output y{j} differ from the model at the grid points', case0)
+            if plain is None:
+                continue
             for _ in range(3):
                 x = []
                 for k, v in enumerate(names):
